@@ -79,7 +79,7 @@ def rand_pattern(rng, cmax=4, kinds=None):
 
 def pattern_from_desc(d):
     if d['kind'] == 'UserTemplate':
-        return pat.UserTemplate(template=np.array(d['template']), search=d['search'])
+        return pat.UserTemplate(template=np.array(d['template'], dtype=d.get('tdtype')), search=d['search'])
     return make_pattern(d['kind'], d['radius'], search=d['search'], radius_outer=d.get('radius_outer'))
 
 
